@@ -46,7 +46,7 @@ COLLISION = ['def', 'class', 'lambda', 'prop', 'overload', 'overload-after', 'de
 
 # file-level items: {relative path: bytes}; the package always also contains good.py
 GOOD = b'def ok():\n    "fine"\n'
-FILE_ITEMS: Dict[str, Dict[str, bytes]] = {
+FILE_ITEMS: Dict[str, Dict[str, Any]] = {
     'empty': {'pk/m.py': b''}, 'comment-only': {'pk/m.py': b'# nothing\n'}, 'bom': {'pk/m.py': b'\xef\xbb\xbfx = 1\n'}, 'bom-utf16': {'pk/m.py': 'x = 1\n'.encode('utf-16')},
     'nul-byte': {'pk/m.py': b'x = 1\n\x00\n'}, 'invalid-utf8': {'pk/m.py': b'x = "\xff"\n'}, 'latin1-cookie': {'pk/m.py': b'# -*- coding: latin-1 -*-\nx = "\xff"\n'},
     'unknown-cookie': {'pk/m.py': b'# -*- coding: no-such-codec -*-\nx = 1\n'}, 'cookie-mismatch': {'pk/m.py': b'# coding: ascii\nx = "\xc3\xa9"\n'},
@@ -66,6 +66,11 @@ FILE_ITEMS: Dict[str, Dict[str, bytes]] = {
     'index-module': {'pk/index.py': b'def f(): "doc"\n'}, 'classIndex-module': {'pk/classIndex.py': b'class C: pass\n'},
     'symlink-free-dir': {'pk/data.txt': b'not python\n', 'pk/sub/__init__.py': b'', 'pk/sub/readme.md': b'#'},
     'only-broken-init': {'pk/m.py': b'x = 1\n'},
+    # directory entries that are not what their names say
+    'dangling-symlink-module': {'pk/dangling.py': ('symlink', '/nonexistent/zzz.py')}, 'symlink-loop-module': {'pk/loop.py': ('symlink', 'loop.py')},
+    'directory-named-module': {'pk/adir.py': ('dir',)}, 'directory-named-init': {'pk/sub/__init__.py': ('dir',), 'pk/sub/m.py': b'x = 1\n'},
+    'symlinked-module': {'pk/real.py': b'def r(): "d"\n', 'pk/link.py': ('symlink', 'real.py')}, 'symlinked-package-loop': {'pk/sub/__init__.py': b'', 'pk/sub/again': ('symlink', '..')},
+    'dangling-symlink-dir': {'pk/gone': ('symlink', '/nonexistent/dir')},
 }
 # multi-file items (whole projects)
 MULTI: Dict[str, Dict[str, str]] = {
@@ -209,7 +214,7 @@ def judge_file_item(name: str, fmt: str, res: Dict[str, Any]) -> None:
             res['violations'].append(core.violation(f'sibling-not-documented/file:{name}', f'[file item {name}] the sibling module page does not list its function', case))
         # an unparsable file is named in a message
         for rel, data in FILE_ITEMS[name].items():
-            if not rel.endswith('.py'):
+            if not rel.endswith('.py') or isinstance(data, tuple):
                 continue
             try:
                 compile(data, rel, 'exec')
